@@ -103,10 +103,15 @@ def _rand_val(rng, name, dtype):
 
 def _gen_rows(rng, props, n, ties=True):
     rows = []
+    # late in a chart, rows a millisecond or two apart: "on the bound" must stay exact equality whatever the magnitude
+    late = ties and rng.random() < 0.2
+    base = rng.choice([300000.0, 600000.0, 3600000.0]) if late else 0.0
     for _ in range(n):
         rows.append({k: _rand_val(rng, k, v[0]) for k, v in props.items()})
-        if ties and rows and rng.random() < 0.3:
-            rows[-1]["offset"] = rng.choice(rows)["offset"]
+        if late:
+            rows[-1]["offset"] = base + float(rng.randint(0, 40)) * 250
+        if ties and len(rows) > 1 and rng.random() < 0.3:
+            rows[-1]["offset"] = rng.choice(rows[:-1])["offset"] + (rng.choice([0.0, 0.5, 1.0, 2.0, -1.0, 0.125]) if late else 0.0)
     return rows
 
 
